@@ -204,14 +204,8 @@ func runC17(c *Ctx) {
 			s := atoi.Call.Args[0]
 			if w.isFieldLoadOf(s, ra, "Username") {
 				stampOK = true
-			} else if u, ok := s.(*ssa.UnOp); ok {
-				if ia, ok := u.X.(*ssa.IndexAddr); ok {
-					if k, isK := constInt(ia.Index); isK && k == 0 {
-						if sc, _ := callOf(ia.X); sc != nil && isColonSplit(sc) && w.isFieldLoadOf(sc.Call.Args[0], ra, "Username") {
-							stampOK = true
-						}
-					}
-				}
+			} else if whole := leadingFieldOf(s); whole != nil && w.isFieldLoadOf(whole, ra, "Username") {
+				stampOK = true
 			}
 		}
 		for _, f := range facts {
@@ -336,6 +330,28 @@ func isDecimalParse(c *ssa.Call) bool {
 		return ok1 && ok2 && base == 10 && (bits == 0 || bits == 64)
 	}
 	return false
+}
+
+// leadingFieldOf: v is the text before the first ':' of a string S — strings.Split(S, ":")[0]
+// (SplitN with n ≥ 3 or < 0) or the first result of strings.Cut(S, ":") — and S (nil otherwise).
+func leadingFieldOf(v ssa.Value) ssa.Value {
+	if u, ok := v.(*ssa.UnOp); ok && u.Op == token.MUL {
+		if ia, ok := u.X.(*ssa.IndexAddr); ok {
+			if k, isK := constInt(ia.Index); isK && k == 0 {
+				if sc, _ := callOf(ia.X); sc != nil && isColonSplit(sc) {
+					return sc.Call.Args[0]
+				}
+			}
+		}
+	}
+	if ex, ok := v.(*ssa.Extract); ok && ex.Index == 0 {
+		if sc, ok := ex.Tuple.(*ssa.Call); ok && stdCallee(&sc.Call) == "strings.Cut" && len(sc.Call.Args) == 2 {
+			if sep, ok := sc.Call.Args[1].(*ssa.Const); ok && sep.Value != nil && sep.Value.ExactString() == `":"` {
+				return sc.Call.Args[0]
+			}
+		}
+	}
+	return nil
 }
 
 // isColonSplit: strings.Split(s, ":"), or strings.SplitN(s, ":", n) with n < 0 or n ≥ 3 —
@@ -498,14 +514,8 @@ func (w *World) c17ExpirySources(at *ssa.Return, ra *ssa.Parameter, timeNow *ssa
 		if fromUser(arg, x.frames, x.facts) {
 			return true
 		}
-		if u, ok := arg.(*ssa.UnOp); ok {
-			if ia, ok := u.X.(*ssa.IndexAddr); ok {
-				if k, isK := constInt(ia.Index); isK && k == 0 {
-					if sc, _ := callOf(ia.X); sc != nil && isColonSplit(sc) && fromUser(sc.Call.Args[0], x.frames, x.facts) {
-						return true
-					}
-				}
-			}
+		if whole := leadingFieldOf(arg); whole != nil && fromUser(whole, x.frames, x.facts) {
+			return true
 		}
 	}
 	return false
